@@ -258,6 +258,20 @@ def print_assumptions(prop_id, names):
     return {k: v.strip() for k, v in res.items()}, p.stdout
 
 
+def run_coqchk(prop_id):
+    """Independent re-check of Properties/Cnn.vo and everything it depends on; -o lists axioms."""
+    try:
+        p = subprocess.run(["timeout", "900", "coqchk", "-o", "-silent", "-Q", COQ, "InvokeVerif",
+                            "InvokeVerif.Properties.%s" % prop_id],
+                           stdout=subprocess.PIPE, stderr=subprocess.STDOUT, text=True, cwd=COQ)
+    except OSError as e:
+        return {"ran": False, "why": repr(e)}
+    m = re.search(r"\* Axioms:(.*?)\n\s*\n\* Constants", p.stdout, re.S)
+    axioms = " ".join(m.group(1).split()) if m else "?"
+    return {"ran": True, "exit": p.returncode, "axioms": axioms,
+            "summary": " ".join(p.stdout[-600:].split())}
+
+
 # --------------------------------------------------------------------------
 # shards
 # --------------------------------------------------------------------------
@@ -464,6 +478,9 @@ def run_check(prop: Prop, tier: str, seed: int) -> int:
             cov["forbidden_constructs"] = forb
         if bad_assump:
             cov["unexpected_axioms"] = bad_assump
+
+        if tier == "thorough" and ok_proof:
+            cov["coqchk"] = run_coqchk(pid)
 
         # ---- 2. correspondence + spec ------------------------------------
         corpus = load_corpus(pid)
